@@ -284,8 +284,8 @@ def checks(h):
     ch = corpus.chunks()
     files = sorted({rel for rel, _, _ in ch})
     if h.quick:
-        # a seed-dependent quarter of the corpus FILES per run
-        files = [f for i, f in enumerate(files) if (i + h.seed) % 4 == 0]
+        # a seed-dependent sixth of the corpus FILES per run
+        files = [f for i, f in enumerate(files) if (i + h.seed) % 6 == 0]
     # files are the unit of sharding and of de-duplication, so that the set of cases does not depend on
     # the number of shards: per file, every (op name, mutation) is exercised on its first instance
     mine = {f for i, f in enumerate(files) if i % h.nshards == h.shard}
